@@ -10,7 +10,8 @@ pub fn runs(prop: &str, tier: Tier) -> u64 {
         "C06" | "C07" => (3000, 36000),
         "C09" | "C10" | "C11" | "C12" => (2500, 30000),
         "C13" => (2400, 32000),
-        "C15" | "C20" => (4000, 60000),
+        "C15" => (30000, 600000),
+        "C20" => (20000, 400000),
         "C03" | "C04" => (500, 5000),
         "C14" => (250, 2500),
         _ => (1500, 20000),
